@@ -8,6 +8,7 @@ package simnet
 
 import (
 	"errors"
+	"time"
 
 	dbm "github.com/cometbft/cometbft-db"
 )
@@ -27,6 +28,26 @@ type FaultDB struct {
 	Fired      bool
 	// statistics
 	TotalBatchWrites int
+	// slow disk: every read takes SlowRead of the node's (bubble) wall clock
+	SlowRead time.Duration
+	Slept    int
+}
+
+// Get: a slow disk makes wall-clock time pass *inside* an ABCI call.
+func (f *FaultDB) Get(key []byte) ([]byte, error) {
+	if f.SlowRead > 0 {
+		f.Slept++
+		time.Sleep(f.SlowRead)
+	}
+	return f.DB.Get(key)
+}
+
+func (f *FaultDB) Has(key []byte) (bool, error) {
+	if f.SlowRead > 0 {
+		f.Slept++
+		time.Sleep(f.SlowRead)
+	}
+	return f.DB.Has(key)
 }
 
 func NewFaultDB(inner dbm.DB) *FaultDB { return &FaultDB{DB: inner} }
